@@ -81,6 +81,15 @@ class SymBuilder:
         cv = self.world.lookup(qual)
         return self.ctx.call(cv, list(args), kwargs)
 
+    def symbolic_literals(self, mapping):
+        """float('<name>') yields the given symbolic real: atoms spelled as these names stand for arbitrary
+        numbers.  Natively the names are replaced by numerals in the text (see NativeBuilder)."""
+        self.ctx.ghost["symbolic_literals"] = dict(mapping)
+        return mapping
+
+    def text(self, template, mapping):
+        return template
+
     def specfn(self, fn):
         """a spec function as a callable value (its source is interpreted like every other spec)"""
         from .contract import spec_source
@@ -192,6 +201,17 @@ class NativeBuilder:
 
     def new(self, qual, *args, **kwargs):
         return native_lookup(qual)(*args, **kwargs)
+
+    def symbolic_literals(self, mapping):
+        return mapping
+
+    def text(self, template, mapping):
+        """replace the literal names by numerals (whole-word)"""
+        import re
+        return re.sub(r"\b(" + "|".join(map(re.escape, mapping)) + r")\b", lambda m: repr(float(mapping[m.group(1)])), template) if mapping else template
+
+    def specfn(self, fn):
+        return fn
 
     def assume(self, cond):
         if not cond:
